@@ -69,3 +69,30 @@ Proof.
   bind_cases; cbn in *; repeat split; try reflexivity; try congruence; try lia;
     intros args H; repeat (destruct H as [H|H]; [inversion H; subst; try reflexivity|]); try contradiction.
 Qed.
+
+(* ---- the single-source binders: each hands bindData ITS source under ITS tag - the query values under "query", the request
+   headers under "header" -, once, and turns a failure into a 400.  [sym] is arbitrary: the statement is about which constants
+   reach bindData, whatever they denote. *)
+Section Single.
+Variable sym : string -> Z.
+Variables (dst err : Z).
+Definition single_start : state := {| locals := [("i"%string, dst); ("c"%string, 0)]; fields := []; events := []; inputs := [[err]] |}.
+Definition bad_request : Z := sym "NewHTTPError(http.StatusBadRequest,err.Error()).SetInternal(err)".
+
+Theorem src_bind_query_params_spec :
+  let '(st', ret) := run sym src_binder_bindqueryparams_results src_binder_bindqueryparams single_start in
+  events st' = [("b.bindData"%string, [dst; sym "c.QueryParams()"; sym """query"""; sym "nil"])] /\
+  ret = [if err =? sym "nil" then sym "nil" else bad_request].
+Proof.
+  unfold run, src_binder_bindqueryparams, src_binder_bindqueryparams_results, single_start, bad_request.
+  golite_eval. unfold truthy. golite_eval. destruct (err =? sym "nil"); golite_eval; split; reflexivity.
+Qed.
+Theorem src_bind_headers_spec :
+  let '(st', ret) := run sym src_binder_bindheaders_results src_binder_bindheaders single_start in
+  events st' = [("b.bindData"%string, [dst; sym "c.Request().Header"; sym """header"""; sym "nil"])] /\
+  ret = [if err =? sym "nil" then sym "nil" else bad_request].
+Proof.
+  unfold run, src_binder_bindheaders, src_binder_bindheaders_results, single_start, bad_request.
+  golite_eval. unfold truthy. golite_eval. destruct (err =? sym "nil"); golite_eval; split; reflexivity.
+Qed.
+End Single.
